@@ -42,6 +42,8 @@ spec fn presented_json(base: SDJWTJson, ds: Vec<String>, kb: String) -> SDJWTJso
 spec fn r_hash_string(h: &SDJWTHolder) -> String {
     if h.key_binding_jwt_payload@.contains_key("sd_hash"@) { match h.key_binding_jwt_payload@["sd_hash"@] { Value::String(s) => s, _ => arbitrary() } } else { arbitrary() }
 }
+// the key-binding algorithm name: the caller's, else the default
+spec fn kb_alg_name(sign_alg: Option<String>) -> Seq<char> { match sign_alg { Some(s) => s@, None => "ES256"@ } }
 proof fn lemma_kb_keys_distinct()
     ensures "nonce"@ != "aud"@, "nonce"@ != "iat"@, "nonce"@ != "sd_hash"@, "aud"@ != "iat"@, "aud"@ != "sd_hash"@, "iat"@ != "sd_hash"@,
 {
@@ -136,6 +138,17 @@ spec fn elem_children(s: J, e: J, dm: DM) -> Sel
         },
     }
 }
+// a refusal at one member / element is a refusal of the whole selection
+proof fn lemma_sel_obj_none_mono(p: Seq<(Seq<char>, J)>, dm: DM, sel: Seq<(Seq<char>, J)>, n: nat, m: nat)
+    requires n <= m <= sel.len(), sel_obj(p, dm, sel, n) is None
+    ensures sel_obj(p, dm, sel, m) is None
+    decreases m
+{ if n < m { lemma_sel_obj_none_mono(p, dm, sel, n, (m - 1) as nat); } }
+proof fn lemma_sel_arr_none_mono(na: Seq<J>, dm: DM, sa: Seq<J>, n: nat, m: nat)
+    requires n <= m, m <= sa.len(), m <= na.len(), sel_arr(na, dm, sa, n) is None
+    ensures sel_arr(na, dm, sa, m) is None
+    decreases m
+{ if n < m { lemma_sel_arr_none_mono(na, dm, sa, n, (m - 1) as nat); } }
 spec fn raws(ds: Seq<Seq<char>>, hd: RawMap) -> Seq<Seq<char>> { ds.map_values(|d: Seq<char>| hd[d]@) }
 broadcast proof fn b_raws_add(a: Seq<Seq<char>>, b: Seq<Seq<char>>, hd: RawMap)
     ensures #[trigger] raws(a + b, hd) == raws(a, hd) + raws(b, hd)
